@@ -46,12 +46,17 @@ def run(ctx: Ctx):
               ' order incl. _generator_lock and no blocking wait while it is'
               ' held (R-C04-4), return values recorded before consumers are'
               ' woken (R-C04-6)', _c04_shared, qmodel(ctx), min_instances=10)
+  from mlmverif.props import c04
+  ctx.include('R-C15-7', '"a generator failure is delivered as that exception'
+              ' after the elements produced before it": the blocking batch read'
+              ' the server uses never discards a batch in progress (R-C04-11)',
+              c04.r11, qmodel(ctx), min_instances=2)
 
 
 def _c04_shared(sub, m):
   from mlmverif.props import c04
   for r in (c04.r1, c04.r4, c04.r6):
-    r(sub, m)
+    sub.guard(r, m)
 
 
 def r1(ctx: Ctx):
